@@ -30,10 +30,21 @@ _SWAP = {ast.Lt: ast.Gt, ast.Gt: ast.Lt, ast.LtE: ast.GtE, ast.GtE: ast.LtE}
 _BUILTINS = set(dir(builtins))
 
 
+_PURE_CALLS = {"len", "abs", "min", "max", "float", "int", "isinstance", "math.hypot", "math.sqrt", "math.floor", "math.ceil", "numpy.linalg.norm", "np.linalg.norm", "numpy.max", "numpy.min", "np.max", "np.min"}
+
+
 def _pure(e):
+    """Evaluating e has no effect and cannot be affected by evaluating the other operand first."""
     for n in ast.walk(e):
-        if isinstance(n, (ast.Call, ast.Await, ast.Yield, ast.YieldFrom, ast.NamedExpr, ast.Subscript)):
+        if isinstance(n, (ast.Await, ast.Yield, ast.YieldFrom, ast.NamedExpr)):
             return False
+        if isinstance(n, ast.Call):
+            try:
+                name = ast.unparse(n.func)
+            except Exception:
+                return False
+            if name not in _PURE_CALLS:
+                return False
     return True
 
 
